@@ -98,3 +98,20 @@ prop("C08", "c08",
            "the encoded-slash settings on the assembled decision and proxy services; bounded exploration.",
      note="Trusted: net/url escaping rules, the echo channel (header finalizer, echo upstream).",
      technique="property-based testing: metamorphic re-encoding relation + reference model for encoded-slash settings")
+
+prop("C14", "c14",
+     "Exhaustive: default rule shape (absent | authenticators + any subset of authorization / finalization / error-handling "
+     "stage, backtracking on/off) x rule stage subset x backtracking unset/true/false x operation mode x forward_to "
+     "(~3000 combinations, every mechanism a scripted probe with a distinct id). Sampled (rapid): execute lists with every "
+     "ordering of step kinds (valid and invalid), conditional steps, unknown mechanism references, rejected overrides, "
+     "unsupported step keys. Oracle: reference computation of the statement: load result (accepted / rejected) and the "
+     "trace of executed mechanism ids on the success path, on a failing path (which error handlers are in effect) and for "
+     "a request failing the rule's own conditions in front of a less specific always-matching rule (effective backtracking). "
+     "Non-trivial: a stage is inherited, the rule is expected to be rejected, or backtracking is set without default rule.",
+     [dict(run="^TestStagewiseInheritanceExhaustive$", quick=1, thorough=1, shards_thorough=1),
+      dict(run="^TestOrderingsAndMalformedRules$", quick=1500, thorough=15000, shards_thorough=8)],
+     ["rule sets whose execute list is empty are rejected by rule-set validation before the factory and are not generated"],
+     level="Complete enumeration of the stage-inheritance configuration space plus randomised search over orderings and "
+           "malformed references, observed behaviourally through the trace of executed probe mechanisms on the assembled service.",
+     note="Trusted: probe mechanisms trace exactly when executed.",
+     technique="exhaustive enumeration + property-based testing against a reference computation of the effective pipeline")
